@@ -64,6 +64,10 @@ pub struct Case {
     pub mode: Mode,
     /// 0 basic auth, 1 bearer, 2 none
     pub auth: u8,
+    /// the request starts at a plain http URL (sent through the same proxy, with its credentials) that redirects to the
+    /// https origin: nothing of the first hop may be carried into the tunnel
+    #[serde(default)]
+    pub via_redirect: bool,
 }
 
 pub struct C12;
@@ -134,14 +138,25 @@ fn run_one(case: &Case, reply_events: Vec<Ev>, head_len: usize, head_complete: b
     let logs = std::sync::Arc::new(std::sync::Mutex::new(vec![]));
     let logs2 = logs.clone();
     let ev = reply_events.clone();
+    let origin_rendered = origin.render();
+    let via_redirect = case.via_redirect;
+    let mut dials = 0;
     let _guard = install_factory(move |dial| {
+        dials += 1;
+        if via_redirect && dials == 1 {
+            // plain http hop through the proxy: answered with a redirect to the https origin
+            let resp = format!("HTTP/1.1 307 Temporary Redirect\r\nLocation: {origin_rendered}\r\nContent-Length: 0\r\n\r\n").into_bytes();
+            let (t, _log) = crate::transport::Scripted::new(vec![Ev::Data(resp), Ev::Eof]);
+            return Ok(Box::new(t) as Box<dyn Transport>);
+        }
         let (t, log) = TunnelPeer::new(ev.clone(), head_len, accept, cert, inner_response.clone());
         logs2.lock().unwrap().push((dial.clone(), log));
         Ok(Box::new(t) as Box<dyn Transport>)
     });
     let proxy_url = url::Url::parse(&case.proxy.render()).expect("proxy url");
-    let mut rb = attohttpc::post(origin.render())
-        .proxy_settings(attohttpc::ProxySettings::builder().https_proxy(proxy_url).build())
+    let start_url = if case.via_redirect { "http://start.test/begin".to_string() } else { origin.render() };
+    let mut rb = attohttpc::post(start_url)
+        .proxy_settings(attohttpc::ProxySettings::builder().https_proxy(proxy_url.clone()).http_proxy(proxy_url).build())
         .header("X-Marker", m_header.as_str())
         .text(m_body.clone());
     rb = match case.auth {
@@ -249,6 +264,7 @@ fn run_one(case: &Case, reply_events: Vec<Ev>, head_len: usize, head_complete: b
             }
         }
         ctx.label("refused-or-broken-reply");
+        ctx.label_if(case.via_redirect, "via-redirect");
         return RunResult { outcome: Outcome::Pass };
     }
 
@@ -303,6 +319,7 @@ fn run_one(case: &Case, reply_events: Vec<Ev>, head_len: usize, head_complete: b
         }
     }
     ctx.label("tunnel-established");
+    ctx.label_if(case.via_redirect, "via-redirect");
     RunResult { outcome: Outcome::Pass }
 }
 
@@ -358,14 +375,15 @@ Oracle P1-P5 over the ordered write/serve log. non-trivial = non-2xx with body >
             prop_oneof![3 => Just(Mode::Danger), 2 => (any::<bool>(), any::<bool>()).prop_map(|(present_proxy_cert, ip_origin)| Mode::Verify { present_proxy_cert, ip_origin })],
             0u8..3,
             0u8..4,
+            prop::bool::weighted(0.25),
         )
-            .prop_map(|(origin_host, origin_port, proxy, mut reply, seg, seed, mode, auth, declare)| {
+            .prop_map(|(origin_host, origin_port, proxy, mut reply, seg, seed, mode, auth, declare, via_redirect)| {
                 reply.declare = declare;
                 // a 2xx reply never carries a body here (bytes after the head would be fed to TLS); keep the head intact half of the time
                 if (200..300).contains(&reply.status) {
                     reply.body = ReplyBody::None;
                 }
-                Case { origin_host, origin_port, proxy, reply, seg, seed, mode, auth }
+                Case { origin_host, origin_port, proxy, reply, seg, seed, mode, auth, via_redirect }
             })
             .boxed()
     }
